@@ -60,8 +60,9 @@ PYTH = {
 }
 LABELS = {
     1: [None, None, None, None, ["s"]],
-    2: [None, ["p", "q"], ["a b", "c"], ["field", "b"], ["mx", "my"]],
-    3: [None, None, ["a", "b", "c"], ["mx", "my", "mz"], ["a", "field", "c"], ["x-component", "y%c", "z z"]],
+    2: [None, None, ["p", "q"], ["a b", "c"], ["field", "b"], ["mx", "my"], ["u", "v"], ["y", "x"]],
+    3: [None, None, None, ["a", "b", "c"], ["mx", "my", "mz"], ["a", "field", "c"], ["x-component", "y%c", "z z"],
+        ["p", "q", "r"], ["z", "x", "y"], ["Norm", "Valid", "Field"]],
     4: [None, ["a", "b", "c", "d"], ["v3", "v2", "v1", "v0"], ["t", "x", "y", "z"]],
 }
 
